@@ -258,6 +258,8 @@ class Program(object):
         trees = dict((name, parse_module(name, text)) for name, text in sources.items())
         from .constprop import propagate
         self.constants_propagated = propagate(trees)
+        from .flatten import flatten as _flatten_bases
+        self.bases_flattened = _flatten_bases(trees)
         from .constprop import canonical_calls
         self.calls_canonicalised = canonical_calls(trees)
         from .cmexpand import expand as _expand_cms
